@@ -90,9 +90,16 @@ pub fn call(req: &Value) -> Value {
                 json!({"bad": "missing helper validate_address"})
             }
         }
-        "treasury_validate_address" => std_res(
-            treasury::helpers::validate_address(&sarg(&a[0]), &sarg(&a[1])).map(|x| x.to_string()),
-        ),
+        "treasury_validate_address" => {
+            #[cfg(has_treasury_validate_address)]
+            {
+                std_res(treasury::helpers::validate_address(&sarg(&a[0]), &sarg(&a[1])).map(|x| x.to_string()))
+            }
+            #[cfg(not(has_treasury_validate_address))]
+            {
+                json!({"bad": "missing helper treasury_validate_address"})
+            }
+        }
         "validate_addresses" => {
             #[cfg(has_validate_addresses)]
             {
